@@ -71,12 +71,17 @@ SUITE = {"type": "suite", "tag": "suite"}
 def plan(prop, tier):
     q = tier == "quick"
     if prop == "C01":
-        return [G("sem", MaxSize=4 if q else 5, MaxLen=3 if q else 4),
+        return [G("sem", MaxSize=4, MaxLen=3 if q else 4)] + \
+               ([] if q else [G("sem5", Leaves="<-LvCore", Quants="<-QSmall", MaxSize=5, MaxLen=3),
+                              G("bref5", Leaves="<-LvBref", Quants="<-QSmall", MaxSize=5, MaxLen=4)]) + \
+               [G("varlen", Leaves="<-LvVarLen", Quants="<-QSmall", MaxSize=3 if q else 4, MaxLen=4),
                 G("flags", Leaves="<-LvAnch", Quants="<-QSmall", MaxSize=3 if q else 4, FlagSets="<-AllFlags",
                   Alpha="{97, 10}", MaxLen=3),
                 T("rand", "general", 2000, 40000)] + ([] if q else [SUITE])
     if prop == "C02":
-        return [G("prio", Leaves="<-LvCore", Quants="<-QAll", MaxSize=4 if q else 5, MaxLen=3 if q else 4),
+        return [G("prio", Leaves="<-LvCore", Quants="<-QAll", MaxSize=4, MaxLen=3 if q else 4)] + \
+               ([] if q else [G("prio5", Leaves="<-LvCore", Quants="<-QSmall", MaxSize=5, MaxLen=3)]) + [
+                G("varlen", Leaves="<-LvVarLen", Quants="<-QSmall", MaxSize=3 if q else 4, MaxLen=4),
                 G("astral", Leaves="<-LvAstral", Quants="<-QSmall", MaxSize=3 if q else 4, Alpha="{66560, 769, 97}",
                   MaxLen=3),
                 G("ml", Leaves="<-LvAnch", Quants="<-QSmall", MaxSize=3 if q else 4, FlagSets="<-FlagsMS",
@@ -89,8 +94,10 @@ def plan(prop, tier):
                   invs=["T1_RoundTrip", "T3_Leftmost"]),
                 T("rand", "groups", 2000, 40000)]
     if prop == "C04":
-        return [G("part", Leaves="<-LvCore", Quants="<-QSmall", MaxSize=4 if q else 5, MaxLen=3 if q else 4,
-                  Variants='{"base", "xsd"}'),
+        return [G("part", Leaves="<-LvCore", Quants="<-QSmall", MaxSize=4, MaxLen=3 if q else 4,
+                  Variants='{"base", "xsd"}')] + \
+               ([] if q else [G("part5", Leaves="<-LvCore", Quants="<-QBasicLazy", MaxSize=5, MaxLen=3,
+                                Variants='{"base", "xsd"}')]) + [
                 G("astral", Leaves="<-LvAstral", Quants="<-QSmall", MaxSize=3 if q else 4, Alpha="{66560, 769, 97}",
                   MaxLen=3, Variants='{"base", "xsd"}'),
                 G("ml", Leaves="<-LvAnch", Quants="<-QSmall", MaxSize=3 if q else 4, FlagSets="<-FlagsMS",
@@ -103,12 +110,14 @@ def plan(prop, tier):
                 K("lit", Mode='"lit"', Toks='"meta"', MaxToks=2 if q else 3),
                 G("valid", Leaves="<-LvAll", Quants="<-QAll", MaxSize=3, MaxLen=2, invs=["T1_RoundTrip"]),
                 T("mut", "general", 2000, 40000, mode="mutants"), T("garbage", "general", 2000, 60000, mode="garbage"),
-                T("bounds", "general", 1500, 20000, mode="bounds"), T("rand", "groups", 1500, 30000),
+                T("bounds", "general", 2200, 21000, mode="bounds"), T("rand", "groups", 1500, 30000),
                 T("dial", "dialect", 1000, 20000, mode="mutants")] + ([] if q else [SUITE])
     if prop == "C06":
-        return [G("loops", Leaves="<-LvLoop", Quants="<-QAll", MaxSize=4 if q else 5, Alpha="{97, 98, 10}",
-                  MaxLen=3, FlagSets="<-FlagsM"),
-                T("rand", "loops", 2000, 40000), T("bounds", "general", 1500, 20000, mode="bounds"),
+        return [G("loops", Leaves="<-LvLoop", Quants="<-QAll", MaxSize=4, Alpha="{97, 98, 10}",
+                  MaxLen=3 if q else 4, FlagSets="<-FlagsM")] + \
+               ([] if q else [G("loops5", Leaves="<-LvLoop", Quants="<-QBasicLazy", MaxSize=5, Alpha="{97, 98, 10}",
+                                MaxLen=3, FlagSets="<-FlagsM")]) + [
+                T("rand", "loops", 2000, 40000), T("bounds", "general", 2200, 21000, mode="bounds"),
                 T("garbage", "general", 1000, 30000, mode="garbage")]
     if prop == "C07":
         return [K("tok", Toks='"core"', MaxToks=4 if q else 5),
@@ -124,21 +133,25 @@ def plan(prop, tier):
         return [R("repl", 3 if q else 4), T("rand", "repl", 2000, 40000)]
     if prop == "C08":
         o = {"also_unopt": True}
-        return [dict(G("shapes", Leaves="<-LvOpt", Quants="<-QOpt8", MaxSize=3 if q else 4, MaxLen=3,
-                       FlagSets="<-FlagsIM", Alpha="{97, 65, 10}"), **o),
+        return [dict(G("shapes", Leaves="<-LvOpt", Quants="<-QOpt8", MaxSize=3, MaxLen=3 if q else 4,
+                       FlagSets="<-FlagsIM", Alpha="{97, 65, 10}"), **o)] + \
+               ([] if q else [dict(G("shapes4", Leaves="<-LvOpt6", Quants="<-QSmall", MaxSize=4, MaxLen=3,
+                                     FlagSets="<-FlagsIM", Alpha="{97, 65, 10}"), **o)]) + [
                 dict(G("anch", Leaves="<-LvAnch", Quants="<-QBasicLazy", MaxSize=3 if q else 4, FlagSets="<-FlagsMS",
                        Alpha="{97, 10}", MaxLen=3), **o),
                 dict(G("sem", MaxSize=3 if q else 4, MaxLen=3), **o),
                 T("rand", "general", 2000, 40000, unopt=True), T("case", "case", 1000, 20000, unopt=True),
                 {"type": "facts", "tag": "facts", "profiles": [("general", 400, 6000), ("anchors", 300, 4000), ("case", 300, 4000)]}]
     if prop == "C09":
-        return [{"type": "classes", "tag": "cls", "nrand": 300 if q else 3000, "full": 150 if q else 100000},
+        return [{"type": "classes", "tag": "cls", "nrand": 300 if q else 3000, "full": 150 if q else 1200},
                 K("class", Toks='"class"', MaxToks=4 if q else 6)]
     if prop == "C10":
         return [{"type": "unicode", "tag": "uni"}, T("names", "classes", 200, 2000, mode="names")]
     if prop == "C11":
-        return [G("ascii", Leaves="<-LvCase", Quants="<-QSmall", MaxSize=3 if q else 4, FlagSets="<-FlagsI",
-                  Alpha="{97, 65, 66, 49}", MaxLen=3),
+        return [G("ascii", Leaves="<-LvCase", Quants="<-QSmall", MaxSize=3, FlagSets="<-FlagsI",
+                  Alpha="{97, 65, 66, 49}", MaxLen=3)] + \
+               ([] if q else [G("ascii4", Leaves="<-LvCase", Quants="<-QBasic", MaxSize=4, FlagSets="<-FlagsI",
+                                Alpha="{97, 65, 66}", MaxLen=2)]) + [
                 G("latin1", Leaves="<-LvCaseL1", Quants="<-QSmall", MaxSize=3, FlagSets="<-FlagsI",
                   Alpha="{233, 201, 53}", MaxLen=3),
                 G("greekcyr", Leaves="<-LvCaseGr", Quants="<-QSmall", MaxSize=3, FlagSets="<-FlagsI",
@@ -151,14 +164,19 @@ def plan(prop, tier):
                   Alpha="{97, 10, 13}", MaxLen=3 if q else 4),
                 T("rand", "anchors", 2000, 40000)]
     if prop == "C14":
-        return [G("ws", Leaves="<-LvWs", Quants="<-QSmall", MaxSize=3 if q else 4, MaxLen=2, Variants='{"ws"}',
-                  invs=["T1_RoundTrip", "T11_XStrip"])]
+        return [G("ws", Leaves="<-LvWs", Quants="<-QSmall" if q else "<-QAll", MaxSize=3, MaxLen=2 if q else 3, Variants='{"ws"}',
+                  invs=["T1_RoundTrip", "T11_XStrip"]),
+                G("ws2", Leaves="<-LvWs", Quants="<-QBasic", MaxSize=2, MaxLen=2, Variants='{"ws2"}', invs=["T1_RoundTrip"]),
+                T("rand", "dialect", 1500, 30000)]
     if prop == "C16":
-        return [G("null", Leaves="<-LvSem", Quants="<-QAll", MaxSize=4 if q else 5, MaxLen=2 if q else 3),
+        return [G("null", Leaves="<-LvSem", Quants="<-QAll", MaxSize=4, MaxLen=2 if q else 4)] + \
+               ([] if q else [G("null5", Leaves="<-LvLoop", Quants="<-QBasicLazy", MaxSize=5, MaxLen=2)]) + [
                 T("rand", "general", 1500, 30000)]
     if prop == "C17":
         return [K("tok", Toks='"wide"', MaxToks=3 if q else 4, Dialects="{TRUE, FALSE}"),
                 K("flags", Mode='"flags"', MaxToks=2 if q else 3, Dialects="{FALSE}"),
+                G("lazyq", Leaves="<-LvAB", Quants="<-QDial", MaxSize=3, MaxLen=2, Variants='{"base", "xsd"}',
+                  invs=["T1_RoundTrip"]),
                 G("dial", Leaves="<-LvDial", Quants="<-QSmall", MaxSize=3 if q else 4, MaxLen=3,
                   Variants='{"base", "xsd"}', invs=THEOREMS + ["T13_Dialect"]),
                 T("rand", "dialect", 2000, 40000)]
@@ -169,7 +187,7 @@ def plan(prop, tier):
                  "consts": {"Depth": 14, "RegIds": "{1, 2, 3}", "ItIds": "{1, 2, 3}", "PoolName": '"wide"'}},
                 T("threads", "general", 800, 15000, mode="threads")] + ([] if q else [SUITE])
     if prop == "C19":
-        return [G("bref", Leaves="<-LvBref", Quants="<-QSmall", MaxSize=5 if q else 6, MaxLen=4 if q else 5,
+        return [G("bref", Leaves="<-LvBref", Quants="<-QSmall", MaxSize=5, MaxLen=4 if q else 5,
                   FlagSets="<-OnlyNoFlags"),
                 G("brefi", Leaves="<-LvBrefI", Quants="<-QBasic", MaxSize=4, MaxLen=3, FlagSets="<-FlagsI",
                   Alpha="{97, 65, 98}"),
@@ -178,7 +196,8 @@ def plan(prop, tier):
         return [G("laws", Leaves="<-LvLaws", Quants="<-QLaws", MaxSize=3 if q else 4, MaxLen=3, MaxGroups=2,
                   Variants='{"laws"}', invs=["T1_RoundTrip", "T16_Laws"]),
                 G("lawsi", Leaves="<-LvAB", Quants="<-QBasic", MaxSize=3, MaxLen=3, FlagSets="<-AllFlags",
-                  Alpha="{97, 65, 10}", Variants='{"laws"}', invs=["T16_Laws"])]
+                  Alpha="{97, 65, 10}", Variants='{"laws"}', invs=["T16_Laws"]),
+                T("rand", "general", 1500, 30000)]
     return []
 
 
